@@ -137,6 +137,8 @@ def load_cases(root: str, prop: str | None = None):
     rdir = os.path.join(HERE, "refactors")
     if os.path.isdir(rdir):
         for d in sorted(os.listdir(rdir)):
+            if not os.path.isdir(os.path.join(rdir, d)):
+                continue
             for f in sorted(os.listdir(os.path.join(rdir, d))):
                 if f.endswith(".diff"):
                     cases.append({"id": f"refactor:{d}-{f[:-5]}", "props": [f"C{i:02d}" for i in range(1, 21)], "kind": "benign", "diff": open(os.path.join(rdir, d, f)).read(),
@@ -261,7 +263,15 @@ def run_all(root="/repo", prop=None, jobs=16):
     import fcntl
 
     with open(os.path.join(tempfile.gettempdir(), "sa-selftest.lock"), "w") as lk:
-        fcntl.flock(lk, fcntl.LOCK_EX)
+        t0 = time.time()
+        while True:  # wait for a running self-test, but not for ever: after ten minutes go ahead regardless
+            try:
+                fcntl.flock(lk, fcntl.LOCK_EX | fcntl.LOCK_NB)
+                break
+            except OSError:
+                if time.time() - t0 > 600:
+                    break
+                time.sleep(2)
         with ProcessPoolExecutor(max_workers=min(jobs, len(work))) as ex:
             return list(ex.map(run_case, work))
 
